@@ -2,7 +2,7 @@
 # Compiles the Coq model, extracts it and builds the OCaml driver (/verif/driver/engine/engine_driver).
 set -e
 cd /verif/coq
-[ -f RModel/EngineTables.v ] || python3 /verif/harness-engine/gentables.py
+/verif/bin/gen-engine-tables > /dev/null
 timeout 900 coqc -Q . Verif RModel/EngineTables.v
 timeout 900 coqc -Q . Verif RModel/Engine.v
 mkdir -p /verif/driver/engine
